@@ -238,9 +238,14 @@ class CuboidalDescription(ShapeDescriptionBase):
     
     def __init__(self):
         super().__init__()
-        self.eqRadiusFactorMin = self.eqRadiusFactor(1)
-        self.kineticFactorMin = self.kineticFactor(1.0001)
-        self.thermoFactorMin = self.thermoFactor(1)
+        # Factors at aspect ratio = 1 (a cube) are the limits of the cuboidal expressions so that
+        # the factors are continuous at 1. The public methods cannot be used for this since they
+        # return the current *Min values for aspect ratios <= 1
+        one = np.ones(1)
+        self.eqRadiusFactorMin = self._eqRadius(one)[0]
+        # sqrt(ar^2 - 1) / log(2 ar^2 + 2 ar sqrt(ar^2 - 1) - 1) -> 1/2 as ar -> 1
+        self.kineticFactorMin = 0.1 + 1.736 / 2
+        self.thermoFactorMin = self._thermoFactor(one)[0]
 
     def _eqRadius(self, ar):
         '''
